@@ -842,4 +842,577 @@ theorem set_out_of_range (s : St Id) (uid : Int) (id : Id) (h : uid ≤ 0 ∨ ui
 
 end
 
+
+/-! ### lookups -/
+
+section
+variable {Id : Type} {e : Env Id}
+
+theorem findOn_some {s : St Id} {q : Id} : ∀ {l : List Nat} {k : Nat} {id : Id},
+    findOn e s q l = some (k, id) → k ∈ l ∧ s.userid[k]? = some id ∧ e.ceq q id = true := by
+  intro l
+  induction l with
+  | nil => intro k id h; simp [findOn] at h
+  | cons a t ih =>
+    intro k id h
+    simp only [findOn] at h
+    cases ha : s.userid[a]? with
+    | none => simp [ha] at h
+    | some ida =>
+      simp only [ha] at h
+      by_cases hq : e.ceq q ida = true
+      · simp only [hq, if_true, Option.some.injEq, Prod.mk.injEq] at h
+        obtain ⟨rfl, rfl⟩ := h
+        exact ⟨List.mem_cons_self, ha, hq⟩
+      · simp only [hq] at h
+        obtain ⟨h1, h2, h3⟩ := ih h
+        exact ⟨List.mem_cons_of_mem _ h1, h2, h3⟩
+
+theorem findOn_none {s : St Id} {q : Id} : ∀ {l : List Nat}, (∀ k ∈ l, ∃ id, s.userid[k]? = some id) →
+    findOn e s q l = none → ∀ k ∈ l, ∀ id, s.userid[k]? = some id → e.ceq q id = false := by
+  intro l
+  induction l with
+  | nil => intro _ _ k hk; cases hk
+  | cons a t ih =>
+    intro hall h k hk id hid
+    obtain ⟨ida, ha⟩ := hall a List.mem_cons_self
+    simp only [findOn, ha] at h
+    by_cases hq : e.ceq q ida = true
+    · simp [hq] at h
+    · simp only [hq] at h
+      rcases List.mem_cons.1 hk with rfl | hk
+      · rw [ha] at hid; cases hid
+        simpa using hq
+      · exact ih (fun k hk => hall k (List.mem_cons_of_mem _ hk)) h k hk id hid
+
+/-- under well-formed chains the guarded loop of DoSearchUserRaw is the plain search of the chain the hash selects:
+the `times < MAX_USERS` guard never cuts it short. -/
+theorem doSearch_spec (hlt : ∀ a, e.hash a < e.B) {s : St Id} {ch : Nat → List Nat} (hwf : WF e s ch) (q : Id) :
+    doSearchUserRaw e s q =
+      .ok ((searchResult (findOn e s q (ch (e.hash q)))).1,
+           if e.isEmpty q then none else (searchResult (findOn e s q (ch (e.hash q)))).2) := by
+  have hh := hlt q
+  obtain ⟨v, hv, hc, hnd, hids⟩ := hwf.2 _ hh
+  have hspec := searchLoop_spec e s q e.MAX hc
+    (fun k hk => ⟨wf_lt hwf hh hk, (hids k hk).imp (fun _ h => h.1)⟩) (wf_length_le hwf hh)
+  unfold doSearchUserRaw
+  simp only [idx_ok hv, bind_ok, hspec, pure_ok]
+
+/-- slot `k` holds `q` in some letter case -/
+def Holds (fold : Id → Id) (s : St Id) (k : Nat) (q : Id) : Prop :=
+  ∃ id, s.userid[k]? = some id ∧ fold id = fold q
+
+/-- no two slots hold the same non-empty id up to letter case -/
+def UniqueFold (e : Env Id) (fold : Id → Id) (s : St Id) : Prop :=
+  ∀ (i j : Nat) (idi idj : Id), s.userid[i]? = some idi → s.userid[j]? = some idj → e.isEmpty idi = false →
+    fold idi = fold idj → i = j
+
+theorem search_empty (s : St Id) (q : Id) (hq : e.isEmpty q = true) : searchUserRaw e s q = .ok (0, none) := by
+  simp [searchUserRaw, hq]
+
+theorem search_found {fold : Id → Id} (L : Laws e fold) {D : List Nat} {s : St Id} (hinv : InvD e D s) (q : Id)
+    (hq : e.isEmpty q = false) {k : Nat} {id : Id} (hid : s.userid[k]? = some id) (hf : fold id = fold q)
+    (hD : k ∉ D) :
+    ∃ (k' : Nat) (id' : Id), searchUserRaw e s q = .ok ((k' : Int) + 1, some id') ∧ s.userid[k']? = some id' ∧ fold id' = fold q := by
+  obtain ⟨ch, hwf, _, hcov⟩ := hinv
+  have hne : e.isEmpty id = false := by rw [L.isEmpty_fold id q hf]; exact hq
+  have hmem : k ∈ ch (e.hash q) := by
+    have := hcov k id hid hne hD
+    rwa [L.hash_eq hf] at this
+  have hh := L.hash_lt q
+  obtain ⟨v, hv, hc, hnd, hids⟩ := hwf.2 _ hh
+  unfold searchUserRaw
+  simp only [hq, Bool.false_eq_true, if_false, doSearch_spec L.hash_lt hwf q]
+  cases hfo : findOn e s q (ch (e.hash q)) with
+  | none =>
+    have := findOn_none (fun k hk => (hids k hk).imp (fun _ h => h.1)) hfo k hmem id hid
+    have hceq : e.ceq q id = true := (L.ceq_iff q id).2 hf.symm
+    rw [hceq] at this
+    cases this
+  | some r =>
+    obtain ⟨k', id'⟩ := r
+    obtain ⟨_, h2, h3⟩ := findOn_some hfo
+    exact ⟨k', id', by simp [searchResult], h2, ((L.ceq_iff q id').1 h3).symm⟩
+
+theorem search_absent {fold : Id → Id} (L : Laws e fold) {D : List Nat} {s : St Id} (hinv : InvD e D s) (q : Id)
+    (habs : ∀ (k : Nat) (id : Id), s.userid[k]? = some id → fold id ≠ fold q) :
+    searchUserRaw e s q = .ok (0, none) := by
+  obtain ⟨ch, hwf, _, _⟩ := hinv
+  unfold searchUserRaw
+  split
+  · rfl
+  · rw [doSearch_spec L.hash_lt hwf q]
+    cases hfo : findOn e s q (ch (e.hash q)) with
+    | none => simp [searchResult]
+    | some r =>
+      obtain ⟨k', id'⟩ := r
+      obtain ⟨_, h2, h3⟩ := findOn_some hfo
+      exact absurd ((L.ceq_iff q id').1 h3).symm (habs k' id' h2)
+
+/-- whatever a lookup returns is a slot that holds the id (no uniqueness needed) -/
+theorem search_sound_aux {fold : Id → Id} (L : Laws e fold) {D : List Nat} {s : St Id} (hinv : InvD e D s) (q : Id)
+    {u : Int} {r : Option Id} (hres : searchUserRaw e s q = .ok (u, r)) :
+    (u = 0 ∧ r = none) ∨ ∃ (k : Nat) (id : Id), u = (k : Int) + 1 ∧ k < e.MAX ∧ s.userid[k]? = some id ∧ fold id = fold q ∧ r = some id := by
+  obtain ⟨ch, hwf, _, _⟩ := hinv
+  unfold searchUserRaw at hres
+  split at hres
+  · simp at hres
+    exact Or.inl ⟨hres.1.symm, hres.2.symm⟩
+  · rename_i hq
+    rw [doSearch_spec L.hash_lt hwf q] at hres
+    simp only [hq, if_false] at hres
+    cases hfo : findOn e s q (ch (e.hash q)) with
+    | none =>
+      simp [hfo, searchResult] at hres
+      exact Or.inl ⟨hres.1.symm, hres.2.symm⟩
+    | some p =>
+      obtain ⟨k', id'⟩ := p
+      obtain ⟨h1, h2, h3⟩ := findOn_some hfo
+      simp [hfo, searchResult] at hres
+      refine Or.inr ⟨k', id', hres.1.symm, wf_lt hwf (L.hash_lt q) h1, h2, ((L.ceq_iff q id').1 h3).symm, hres.2.symm⟩
+
+end
+
+/-! ### the loader -/
+
+section
+variable {Id : Type} {e : Env Id}
+
+theorem writeCell_frame {s s1 : St Id} {c : Cell} {v : Int} (h : writeCell s c v = .ok s1) :
+    s1.userid = s.userid ∧ s1.number = s.number ∧ s1.loaded = s.loaded := by
+  cases c <;> simp only [writeCell, setM] at h <;> split at h <;> simp at h <;> subst h <;> exact ⟨rfl, rfl, rfl⟩
+
+/-- userecRawAddToUHash on a slot that is on no chain, cold mode: skip, or write the id and link the slot. -/
+theorem loaderAdd_cold (hlt : ∀ a, e.hash a < e.B) {s : St Id} {ch : Nat → List Nat} (hwf : WF e s ch) {k : Nat}
+    (hk : k < e.MAX) (hfree : Free e ch k) (id : Id) (cnt : Nat) :
+    (∃ cnt', loaderAdd e false s k id cnt = .ok (s, cnt')) ∨
+    ∃ s' cnt', loaderAdd e false s k id cnt = .ok (s', cnt') ∧
+      WF e s' (upd ch (e.hash id) (ch (e.hash id) ++ [k])) ∧ s'.userid = s.userid.set k id ∧
+      s'.number = s.number ∧ s'.loaded = s.loaded := by
+  by_cases hskip : (!e.valid id) = true ∧ (if e.valid id = true then cnt else cnt + 1) > e.PRE
+  · left
+    exact ⟨(if e.valid id = true then cnt else cnt + 1), by simp only [loaderAdd, hskip, and_self, if_true, pure_ok]⟩
+  · right
+    have hwf1 := wf_setid hwf hfree id
+    have hh := hlt id
+    obtain ⟨v, hv, hc, hnd, hids⟩ := hwf1.2 _ hh
+    have hku : k < s.userid.length := by rw [hwf.1.hu]; exact hk
+    obtain ⟨cur, hcur⟩ := getElem?_of_lt hku
+    have hid0 : ({ s with userid := s.userid.set k id } : St Id).userid[k]? = some id := by simp [hku]
+    obtain ⟨s1, hw, hs, hwf2, hu⟩ := wf_link hwf1 hk hfree hh hid0 rfl
+    have hlen : (ch (e.hash id)).length ≤ e.MAX := wf_length_le hwf hh
+    have hf := writeCell_frame hw
+    refine ⟨{ s1 with next := s1.next.set k (-1) }, (if e.valid id = true then cnt else cnt + 1), ?_, hwf2, hu, hf.2.1, hf.2.2⟩
+    have hv' : s.head[e.hash id]? = some v := hv
+    have hloop := loaderLoop_spec e false k e.MAX (.head (e.hash id)) hc (fun x hx => wf_lt hwf hh hx) hlen
+    simp only [Bool.false_eq_true, false_and, if_false] at hloop
+    simp only [loaderAdd, hskip, if_false, idx_ok hcur, bind_ok, Bool.not_false, Bool.true_or, if_true,
+      setM_ok _ hku, pure_ok, idx_ok hv', hloop, hw, hs]
+
+/-- userecRawAddToUHash, on-the-fly mode, for a record whose id equals the live id as a C string:
+nothing is written to Userid; the slot is left where it is or linked behind its chain. -/
+theorem loaderAdd_onfly {fold : Id → Id} (L : Laws e fold) {s : St Id} {ch : Nat → List Nat} (hwf : WF e s ch) {k : Nat}
+    (hk : k < e.MAX) (id cur : Id) (hcur : s.userid[k]? = some cur) (hagree : e.seq id cur = true) (cnt : Nat) :
+    ∃ s' cnt' ch', loaderAdd e true s k id cnt = .ok (s', cnt') ∧ WF e s' ch' ∧
+      (∀ h x, x ∈ ch h → x ∈ ch' h) ∧ s'.userid = s.userid ∧ s'.number = s.number ∧ s'.loaded = s.loaded := by
+  by_cases hskip : (!e.valid id) = true ∧ (if e.valid id = true then cnt else cnt + 1) > e.PRE
+  · exact ⟨s, (if e.valid id = true then cnt else cnt + 1), ch, by simp only [loaderAdd, hskip, and_self, if_true, pure_ok], hwf, fun _ _ h => h, rfl, rfl, rfl⟩
+  · have hhash : e.hash cur = e.hash id := (L.hash_eq (L.seq_fold id cur hagree)).symm
+    have hh := L.hash_lt id
+    obtain ⟨v, hv, hc, hnd, hids⟩ := hwf.2 _ hh
+    have hlen : (ch (e.hash id)).length ≤ e.MAX := wf_length_le hwf hh
+    have hloop := loaderLoop_spec e true k e.MAX (.head (e.hash id)) hc (fun x hx => wf_lt hwf hh hx) hlen
+    simp only [true_and] at hloop
+    by_cases hm : k ∈ ch (e.hash id)
+    · refine ⟨s, (if e.valid id = true then cnt else cnt + 1), ch, ?_, hwf, fun _ _ h => h, rfl, rfl, rfl⟩
+      simp only [hm, if_true] at hloop
+      simp only [loaderAdd, hskip, if_false, idx_ok hcur, bind_ok, Bool.not_true, hagree, Bool.or_self,
+        Bool.false_eq_true, pure_ok, idx_ok hv, hloop]
+    · have hfree : Free e ch k := by
+        intro h' hh' hx
+        obtain ⟨_, _, _, _, hids'⟩ := hwf.2 h' hh'
+        obtain ⟨id', h1, h2⟩ := hids' k hx
+        rw [hcur] at h1; cases h1
+        rw [hhash] at h2
+        exact hm (h2 ▸ hx)
+      obtain ⟨s1, hw, hs, hwf2, hu⟩ := wf_link hwf hk hfree hh hcur hhash
+      have hf := writeCell_frame hw
+      refine ⟨{ s1 with next := s1.next.set k (-1) }, (if e.valid id = true then cnt else cnt + 1), _, ?_, hwf2, ?_, hu, hf.2.1, hf.2.2⟩
+      · simp only [hm, if_false] at hloop
+        simp only [loaderAdd, hskip, if_false, idx_ok hcur, bind_ok, Bool.not_true, hagree, Bool.or_self,
+          Bool.false_eq_true, pure_ok, idx_ok hv, hloop, hw, hs]
+      · intro h x hx
+        simp only [upd]
+        split
+        · rename_i heq; subst heq; exact List.mem_append_left _ hx
+        · exact hx
+
+/-- fillUHash's record loop, cold mode -/
+theorem fillLoop_cold (hlt : ∀ a, e.hash a < e.B) : ∀ (recs : List Id) (i cnt : Nat) (s : St Id) (ch : Nat → List Nat),
+    WF e s ch → (∀ h, h < e.B → ∀ x ∈ ch h, x < i) → Cover e [] s ch → i + recs.length ≤ e.MAX →
+    ∃ s' ch', fillLoop e false recs i cnt s = .ok s' ∧ WF e s' ch' ∧ Cover e [] s' ch' ∧
+      s'.number = s.number ∧ s'.loaded = s.loaded ∧
+      (∀ j, j < i ∨ i + recs.length ≤ j → s'.userid[j]? = s.userid[j]?) ∧
+      (∀ j r, recs[j]? = some r → s'.userid[i + j]? = some r ∨ s'.userid[i + j]? = s.userid[i + j]?) := by
+  intro recs
+  induction recs with
+  | nil =>
+    intro i cnt s ch hwf _ hcov _
+    exact ⟨s, ch, rfl, hwf, hcov, rfl, rfl, fun _ _ => rfl, fun j r h => by simp at h⟩
+  | cons r rs ih =>
+    intro i cnt s ch hwf hbelow hcov hlen
+    have hi : i < e.MAX := by simp at hlen; omega
+    have hfree : Free e ch i := fun h hh hx => by have := hbelow h hh i hx; omega
+    have hiu : i < s.userid.length := by rw [hwf.1.hu]; exact hi
+    rcases loaderAdd_cold hlt hwf hi hfree r cnt with ⟨cnt', hrun⟩ | ⟨s1, cnt', hrun, hwf1, hu1, hn1, hl1⟩
+    · obtain ⟨s', ch', hr', hwf', hcov', hn', hl', hout, hin⟩ :=
+        ih (i + 1) cnt' s ch hwf (fun h hh x hx => by have := hbelow h hh x hx; omega) hcov (by simp at hlen; omega)
+      refine ⟨s', ch', ?_, hwf', hcov', hn', hl', ?_, ?_⟩
+      · simp only [fillLoop, hrun, bind_ok, hr']
+      · intro j hj
+        apply hout
+        simp at hj
+        omega
+      · intro j r' hj
+        cases j with
+        | zero => right; exact hout i (by omega)
+        | succ j =>
+          have := hin j r' (by simpa using hj)
+          rw [show i + 1 + j = i + (j + 1) by omega] at this
+          exact this
+    · have hbelow1 : ∀ h, h < e.B → ∀ x ∈ upd ch (e.hash r) (ch (e.hash r) ++ [i]) h, x < i + 1 := by
+        intro h hh x hx
+        simp only [upd] at hx
+        split at hx
+        · rcases List.mem_append.1 hx with hx | hx
+          · have := hbelow _ (hlt r) x hx; omega
+          · simp at hx; omega
+        · have := hbelow h hh x hx; omega
+      have hcov1 : Cover e [] s1 (upd ch (e.hash r) (ch (e.hash r) ++ [i])) := by
+        intro k' id' hid' hne _
+        rw [hu1] at hid'
+        by_cases hkk : k' = i
+        · subst hkk
+          simp [hiu] at hid'
+          subst hid'
+          simp [upd]
+        · rw [List.getElem?_set_ne (Ne.symm hkk)] at hid'
+          have := hcov k' id' hid' hne (by simp)
+          simp only [upd]
+          split
+          · rename_i heq; rw [heq] at this; exact List.mem_append_left _ this
+          · exact this
+      obtain ⟨s', ch', hr', hwf', hcov', hn', hl', hout, hin⟩ :=
+        ih (i + 1) cnt' s1 _ hwf1 hbelow1 hcov1 (by simp at hlen; omega)
+      refine ⟨s', ch', ?_, hwf', hcov', by rw [hn', hn1], by rw [hl', hl1], ?_, ?_⟩
+      · simp only [fillLoop, hrun, bind_ok, hr']
+      · intro j hj
+        have hj' : j < i + 1 ∨ i + 1 + rs.length ≤ j := by simp at hj; omega
+        rw [hout j hj', hu1]
+        have : i ≠ j := by simp at hj; omega
+        rw [List.getElem?_set_ne this]
+      · intro j r' hj
+        cases j with
+        | zero =>
+          left
+          simp at hj; subst hj
+          show s'.userid[i]? = some r
+          rw [hout i (by omega), hu1]
+          simp [hiu]
+        | succ j =>
+          have := hin j r' (by simpa using hj)
+          rw [show i + 1 + j = i + (j + 1) by omega, hu1, List.getElem?_set_ne (by omega)] at this
+          exact this
+
+/-- fillUHash's record loop, on-the-fly mode, over records that agree with the live ids -/
+theorem fillLoop_onfly {fold : Id → Id} (L : Laws e fold) : ∀ (recs : List Id) (i cnt : Nat) (s : St Id) (ch : Nat → List Nat),
+    WF e s ch → Cover e [] s ch →
+    (∀ j r, recs[j]? = some r → ∃ cur, s.userid[i + j]? = some cur ∧ e.seq r cur = true) →
+    ∃ s' ch', fillLoop e true recs i cnt s = .ok s' ∧ WF e s' ch' ∧ Cover e [] s' ch' ∧
+      s'.userid = s.userid ∧ s'.number = s.number ∧ s'.loaded = s.loaded := by
+  intro recs
+  induction recs with
+  | nil =>
+    intro i cnt s ch hwf hcov _
+    exact ⟨s, ch, rfl, hwf, hcov, rfl, rfl, rfl⟩
+  | cons r rs ih =>
+    intro i cnt s ch hwf hcov hag
+    obtain ⟨cur, hcur, hseq⟩ := hag 0 r (by simp)
+    simp only [Nat.add_zero] at hcur
+    have hi : i < e.MAX := by
+      have := (List.getElem?_eq_some_iff.1 hcur).1
+      rw [hwf.1.hu] at this
+      exact this
+    obtain ⟨s1, cnt', ch1, hrun, hwf1, hgrow, hu1, hn1, hl1⟩ := loaderAdd_onfly L hwf hi r cur hcur hseq cnt
+    have hcov1 : Cover e [] s1 ch1 := by
+      intro k' id' hid' hne hD
+      rw [hu1] at hid'
+      exact hgrow _ _ (hcov k' id' hid' hne hD)
+    obtain ⟨s', ch', hr', hwf', hcov', hu', hn', hl'⟩ := ih (i + 1) cnt' s1 ch1 hwf1 hcov1 (by
+      intro j r' hj
+      have := hag (j + 1) r' (by simpa using hj)
+      rw [hu1, show i + 1 + j = i + (j + 1) by omega]
+      exact this)
+    exact ⟨s', ch', by simp only [fillLoop, hrun, bind_ok, hr'], hwf', hcov', by rw [hu', hu1], by rw [hn', hn1],
+      by rw [hl', hl1]⟩
+
+/-- InitFillUHash(true) under well-formed chains repairs nothing -/
+theorem checkAllFrom_id {s : St Id} {ch : Nat → List Nat} (hwf : WF e s ch) : ∀ (hs : List Int) (h0 : Nat),
+    (∀ j v, hs[j]? = some v → s.head[h0 + j]? = some v) → checkAllFrom e hs h0 s = .ok s := by
+  intro hs
+  induction hs with
+  | nil => intro _ _; rfl
+  | cons v rest ih =>
+    intro h0 hhs
+    have hv : s.head[h0]? = some v := by simpa using hhs 0 v (by simp)
+    have hh : h0 < e.B := by
+      have := (List.getElem?_eq_some_iff.1 hv).1
+      rw [hwf.1.hh] at this
+      exact this
+    obtain ⟨v', hv', hc, hnd, hids⟩ := hwf.2 h0 hh
+    rw [hv] at hv'; cases hv'
+    have := checkLoop_id e h0 s e.MAX (.head h0) hc (fun x hx => ⟨wf_lt hwf hh hx, hids x hx⟩) (wf_length_le hwf hh)
+    simp only [checkAllFrom, this, bind_ok]
+    apply ih
+    intro j w hj
+    have := hhs (j + 1) w (by simpa using hj)
+    rw [show h0 + 1 + j = h0 + (j + 1) by omega]
+    exact this
+
+theorem initFill_onfly_id {s : St Id} {ch : Nat → List Nat} (hwf : WF e s ch) : initFill e true s = .ok s := by
+  simp only [initFill, if_true]
+  exact checkAllFrom_id hwf s.head 0 (fun j v h => by simpa using h)
+
+end
+
+section
+variable {Id : Type} {e : Env Id}
+
+theorem writeCell_head_frame {s s1 : St Id} {c : Cell} {v : Int} {h : Nat} (hc : ∀ h', c = .head h' → h' = h)
+    (hw : writeCell s c v = .ok s1) : s1.head.length = s.head.length ∧ ∀ j, j ≠ h → s1.head[j]? = s.head[j]? := by
+  cases c with
+  | head h' =>
+    have := hc h' rfl
+    subst this
+    simp only [writeCell, setM] at hw
+    split at hw
+    · simp at hw; subst hw
+      exact ⟨by simp, fun j hj => by simp [List.getElem?_set_ne (Ne.symm hj)]⟩
+    · simp at hw
+  | next k =>
+    simp only [writeCell, setM] at hw
+    split at hw
+    · simp at hw; subst hw; exact ⟨rfl, fun _ _ => rfl⟩
+    · simp at hw
+
+/-- checkHash(h) writes no head cell other than `HashHead[h]`. -/
+theorem checkLoop_head_frame (h : Nat) : ∀ (fuel : Nat) (s : St Id) (c : Cell) (v : Int) (s' : St Id),
+    (∀ h', c = .head h' → h' = h) → checkLoop e h fuel s c v = .ok s' →
+    s'.head.length = s.head.length ∧ ∀ j, j ≠ h → s'.head[j]? = s.head[j]? := by
+  intro fuel
+  induction fuel with
+  | zero =>
+    intro s c v s' hc hrun
+    rw [checkLoop] at hrun
+    split at hrun
+    · simp at hrun; subst hrun; exact ⟨rfl, fun _ _ => rfl⟩
+    · split at hrun
+      · exact writeCell_head_frame hc hrun
+      · simp at hrun
+  | succ f ih =>
+    intro s c v s' hc hrun
+    rw [checkLoop] at hrun
+    split at hrun
+    · simp at hrun; subst hrun; exact ⟨rfl, fun _ _ => rfl⟩
+    · split at hrun
+      · exact writeCell_head_frame hc hrun
+      · cases h1 : idxI s.userid v with
+        | error x => simp [h1] at hrun
+        | ok id =>
+          cases h2 : idxI s.next v with
+          | error x => simp [h1, h2] at hrun
+          | ok nxt =>
+            simp only [h1, h2, bind_ok] at hrun
+            split at hrun
+            · cases h3 : writeCell s c nxt with
+              | error x => simp [h3] at hrun
+              | ok s1 =>
+                simp only [h3, bind_ok] at hrun
+                have f1 := writeCell_head_frame hc h3
+                have f2 := ih s1 c nxt s' hc hrun
+                exact ⟨by rw [f2.1, f1.1], fun j hj => by rw [f2.2 j hj, f1.2 j hj]⟩
+            · exact ih s (.next v.toNat) nxt s' (fun h' hh => by cases hh) hrun
+
+/-- The one-pass form of InitFillUHash(true) used by the model equals the literal loop of the source. -/
+theorem checkAllFrom_eq_checkAll : ∀ (hs : List Int) (h0 : Nat) (s : St Id), s.head.drop h0 = hs →
+    checkAllFrom e hs h0 s = checkAll e s (List.range' h0 hs.length) := by
+  intro hs
+  induction hs with
+  | nil => intro h0 s _; rfl
+  | cons v rest ih =>
+    intro h0 s hd
+    have hv : s.head[h0]? = some v := by
+      have : (s.head.drop h0)[0]? = some v := by rw [hd]; rfl
+      simpa using this
+    simp only [List.length_cons, List.range'_succ, checkAll, checkHash, idx_ok hv, bind_ok, checkAllFrom]
+    cases hrun : checkLoop e h0 e.MAX s (.head h0) v with
+    | error x => rfl
+    | ok s' =>
+      simp only [bind_ok]
+      apply ih
+      obtain ⟨hl, hf⟩ := checkLoop_head_frame h0 e.MAX s (.head h0) v s' (fun h' hh => by cases hh; rfl) hrun
+      apply List.ext_getElem?
+      intro j
+      have : (s.head.drop h0)[j + 1]? = rest[j]? := by rw [hd]; rfl
+      rw [← this]
+      simp only [List.getElem?_drop]
+      rw [hf (h0 + 1 + j) (by omega)]
+      congr 1
+      omega
+
+end
+
+/-! ### the id operations of the real build satisfy the laws -/
+
+/-- case folding of an id: the bytes before the first NUL, upper-cased -/
+def realFold (a : List Nat) : List Nat := (cstr a).map toupper
+
+theorem toupper_ne_zero {c : Nat} (h : c ≠ 0) : toupper c ≠ 0 := by
+  unfold toupper; split <;> omega
+
+theorem tolower_eq_zero_iff (c : Nat) : tolower c = 0 ↔ c = 0 := by
+  unfold tolower; split <;> omega
+
+theorem toupper_eq_zero_iff (c : Nat) : toupper c = 0 ↔ c = 0 := by
+  unfold toupper; split <;> omega
+
+theorem toupper_idem (c : Nat) : toupper (toupper c) = toupper c := by
+  unfold toupper; (repeat' split) <;> omega
+
+theorem toupper_tolower (c : Nat) : toupper (tolower c) = toupper c := by
+  unfold toupper tolower; (repeat' split) <;> omega
+
+theorem lower_eq_iff_upper_eq (x y : Nat) : tolower x = tolower y ↔ toupper x = toupper y := by
+  unfold toupper tolower; (repeat' split) <;> omega
+
+theorem cstr_nil : cstr [] = [] := rfl
+
+theorem cstr_cons (c : Nat) (cs : List Nat) : cstr (c :: cs) = if c = 0 then [] else c :: cstr cs := by
+  unfold cstr
+  by_cases h : c = 0 <;> simp [h]
+
+theorem cstr_map {f : Nat → Nat} (hf : ∀ c, f c = 0 ↔ c = 0) (a : List Nat) : cstr (a.map f) = (cstr a).map f := by
+  induction a with
+  | nil => rfl
+  | cons c cs ih =>
+    simp only [List.map_cons, cstr_cons, hf]
+    split <;> simp [ih]
+
+theorem fnv_fold (a : List Nat) : ∀ h, fnv1a32StrCase (realFold a) h = fnv1a32StrCase a h := by
+  induction a with
+  | nil => intro h; rfl
+  | cons c cs ih =>
+    intro h
+    unfold realFold at *
+    rw [cstr_cons]
+    by_cases hc : c = 0
+    · simp [hc, fnv1a32StrCase]
+    · simp only [hc, if_false, List.map_cons, fnv1a32StrCase, toupper_ne_zero hc, toupper_idem]
+      exact ih _
+
+theorem hashMod_pos : 0 < hashMod := Nat.pow_pos (by decide)
+
+theorem cstrcmp_eq_zero_iff : ∀ (a b : List Nat), cstrcmp a b = 0 ↔ cstr a = cstr b := by
+  intro a
+  induction a with
+  | nil =>
+    intro b
+    cases b with
+    | nil => simp [cstrcmp]
+    | cons y ys =>
+      simp only [cstrcmp, cstr_nil, cstr_cons]
+      by_cases hy : y = 0
+      · simp [hy]
+      · simp only [hy, if_false]
+        constructor
+        · intro h; omega
+        · intro h; cases h
+  | cons x xs ih =>
+    intro b
+    cases b with
+    | nil =>
+      simp only [cstrcmp, cstr_nil, cstr_cons]
+      by_cases hx : x = 0
+      · simp [hx]
+      · simp only [hx, if_false]
+        constructor
+        · intro h; omega
+        · intro h; cases h
+    | cons y ys =>
+      simp only [cstrcmp, cstr_cons]
+      by_cases hx : x = 0
+      · simp only [hx, if_true]
+        by_cases hy : y = 0
+        · simp [hy]
+        · simp only [hy, if_false]
+          constructor
+          · intro h; omega
+          · intro h; cases h
+      · simp only [hx, if_false]
+        by_cases hxy : x = y
+        · subst hxy
+          simp only [ne_eq, not_true_eq_false, if_false, hx]
+          rw [ih ys]
+          simp
+        · simp only [ne_eq, hxy, not_false_eq_true, if_true]
+          constructor
+          · intro h; omega
+          · intro h
+            by_cases hy : y = 0
+            · simp [hy] at h
+            · simp only [hy, if_false] at h
+              exact absurd (List.cons.inj h).1 hxy
+
+theorem map_eq_iff_of_pointwise {f g : Nat → Nat} (h : ∀ x y, f x = f y ↔ g x = g y) :
+    ∀ (l₁ l₂ : List Nat), l₁.map f = l₂.map f ↔ l₁.map g = l₂.map g := by
+  intro l₁
+  induction l₁ with
+  | nil => intro l₂; cases l₂ <;> simp
+  | cons a t ih =>
+    intro l₂
+    cases l₂ with
+    | nil => simp
+    | cons b u => simp [h a b, ih u]
+
+theorem ceq_iff_real (a b : List Nat) : (cstrcasecmp a b == 0) = true ↔ realFold a = realFold b := by
+  simp only [beq_iff_eq, cstrcasecmp, cstrcmp_eq_zero_iff, cstr_map tolower_eq_zero_iff, realFold]
+  exact map_eq_iff_of_pointwise lower_eq_iff_upper_eq _ _
+
+theorem isEmpty_iff_real (a : List Nat) : (a.headD 0 == 0) = true ↔ realFold a = [] := by
+  cases a with
+  | nil => simp [realFold, cstr_nil]
+  | cons c cs =>
+    simp only [List.headD_cons, beq_iff_eq, realFold, cstr_cons]
+    by_cases hc : c = 0 <;> simp [hc]
+
+theorem real_laws : Laws realEnv realFold where
+  hash_lt a := Nat.mod_lt _ hashMod_pos
+  hash_fold a := by
+    show stringHashWithHashBits (realFold a) = stringHashWithHashBits a
+    simp only [stringHashWithHashBits, stringHash, fnv_fold]
+  ceq_iff a b := ceq_iff_real a b
+  seq_fold a b h := by
+    have : cstrcmp a b = 0 := by simpa [realEnv] using h
+    rw [cstrcmp_eq_zero_iff] at this
+    simp only [realFold, this]
+  isEmpty_fold a b h := by
+    have ha := isEmpty_iff_real a
+    have hb := isEmpty_iff_real b
+    rw [h] at ha
+    show (a.headD 0 == 0) = (b.headD 0 == 0)
+    rw [Bool.eq_iff_iff, ha, hb]
+  zero_empty := by
+    show ((List.replicate idSize 0).headD 0 == 0) = true
+    cases idSize <;> simp [List.replicate]
+
 end PttVerif.C04
